@@ -3,7 +3,8 @@
 usage: seedmatrix.py [seed-id ...]   (default: all under /tmp/seed or /verif/seeded)"""
 import subprocess, sys, json, os, re
 ROOT = "/verif/seeded"
-EXTRA = {  # additional checks worth running per seed (besides the seed's own property)
+EXTRA = {
+    "R1": ["C01", "C05", "C08"], "R2": [], "R3": ["C06"], "R4": ["C06"],  # additional checks worth running per seed (besides the seed's own property)
     "C01-a": ["C04", "C05"], "C01-b": ["C02", "C07"], "C02-a": ["C07"], "C02-b": ["C08", "C19"], "C03-a": ["C15"], "C03-b": ["C06"],
     "C04-b": ["C06"], "C05-a": ["C06"], "C05-b": ["C06", "C09"], "C06-a": ["C04"], "C06-b": [], "C07-a": ["C02"], "C07-b": ["C06"],
     "C08-a": ["C19", "C02"], "C08-b": ["C19", "C16"], "C09-a": ["C06"], "C09-b": ["C15"], "C10-a": ["C12"], "C10-b": ["C08", "C18"],
@@ -37,6 +38,8 @@ if __name__ == "__main__":
     matrix = json.load(open(mp)) if os.path.exists(mp) else {}
     for s in seeds:
         prop = s.split("-")[0]
-        checks = [prop] + [c for c in EXTRA.get(s, []) if c != prop]
+        if prop.startswith("R"):
+            prop = json.load(open(os.path.join(ROOT, s, "meta.json")))["property"]
+        checks = [prop] + [c for c in EXTRA.get(s, EXTRA.get(s.split("-")[0], [])) if c != prop]
         matrix[s] = run(s, checks)
         json.dump(matrix, open(mp, "w"), indent=1, sort_keys=True)
